@@ -89,6 +89,22 @@ class PLate(P):
     managed = 0.9
 
 
+class PDist(P):
+    """Long DISTRIBUTION phases: the storm begins when the cluster has just formed and children take long to start."""
+    warmups = (18, 22, 26, 30)
+    startsecs = (6, 12, 12)
+    sequences = (1, 2, 3)
+    rpc_rare = ('restart', 'shutdown')
+    fault_ops = ('crash',)
+    proc_ops = ('exit',)
+    user_ops = ('rpc_fuzz', 'rpc_fuzz', 'rpc_fuzz', 'rpc_fuzz', 'rpc')
+    sync_sets = ('TIMEOUT', 'LIST,TIMEOUT')
+    late_boot = 0.0
+    managed = 1.0
+    op_rate = 0.7
+    steps_max = 40
+
+
 class GateMonitor(Monitor):
     def __init__(self, config):
         self.config = config
@@ -158,8 +174,14 @@ class GateMonitor(Monitor):
 
     def on_user_rpc(self, inst, name, args, outcome):
         call, self.call = self.call, None
-        if call is None or outcome[0] in ('down', 'unmarshallable', 'exc'):
-            return      # internal errors are C16
+        if call is None or outcome[0] in ('down', 'unmarshallable'):
+            return
+        if outcome[0] == 'exc':
+            # "fail cleanly": nothing but an RPCError may come out of an XML-RPC (bucketed per method and exception type)
+            exc_type = str(outcome[1]).split('(', 1)[0]
+            self.findings.append((f'unclean-failure:{call["method"]}:{exc_type}', f't={inst.world.now} {inst.nick} '
+                                  f'({call["state"]}) supvisors.{call["method"]}{tuple(args)!r} raises {outcome[1]}'))
+            return
         method, state = call['method'], call['state']
         if method not in RPC_SIGNATURES:
             return
@@ -247,7 +269,7 @@ def classify(runner, monitors, episode):
     return nontrivial, classes
 
 
-CHECK = EpisodeCheck(PROPERTY_ID, st.one_of(episode_st(P), episode_st(PLate)), make_monitors, evaluate, classify, quick=800, thorough=12000,
+CHECK = EpisodeCheck(PROPERTY_ID, st.one_of(episode_st(P), episode_st(PLate), episode_st(PDist)), make_monitors, evaluate, classify, quick=800, thorough=12000,
                      suffix_kwargs={'ticks': 4, 'boot_dead': False})
 
 
